@@ -131,7 +131,7 @@ resolve_label = Fn(
           "res is Ok ==> final(defs).symbols.defs@[(ast_symbol.item_ref->0).0 as int]->0.value is Integer"
           " && final(defs).symbols.defs@[(ast_symbol.item_ref->0).0 as int]->0.value->Integer_0.val() == address_of(bank_of(old(defs), ctx.bank_ref), ctx.bank_data.cur_position as int)", ["C01", "C02"]),
         C("resolved_means_unchanged",
-          "res == %s ==> expr::value_eq(final(defs).symbols.defs@[(ast_symbol.item_ref->0).0 as int]->0.value, old(defs).symbols.defs@[(ast_symbol.item_ref->0).0 as int]->0.value)" % STABLE, ["C02", "C09"]),
+          "res == %s ==> expr::value_eq(final(defs).symbols.defs@[(ast_symbol.item_ref->0).0 as int]->0.value, old(defs).symbols.defs@[(ast_symbol.item_ref->0).0 as int]->0.value)" % STABLE, ["C02", "C09", "C01"]),
         C("other_lists_untouched", "final(defs).bankdefs == old(defs).bankdefs && final(defs).instructions == old(defs).instructions && final(defs).data_elems == old(defs).data_elems"
           " && final(defs).res_directives == old(defs).res_directives && final(defs).align_directives == old(defs).align_directives && final(defs).addr_directives == old(defs).addr_directives", ["C02"]),
         C("other_symbols_untouched", "forall|k: int| 0 <= k < old(defs).symbols.defs@.len() && k != (ast_symbol.item_ref->0).0 ==> final(defs).symbols.defs@[k] == old(defs).symbols.defs@[k]", ["C02"]),
@@ -349,8 +349,8 @@ bankdef_define = Fn(
     ],
     rewrites=[
         Rewrite("for any_node in &ast.nodes", "for any_node in it: &ast.nodes", rule="R5", why="ghost iterator named"),
-        Rewrite(".map(|s| s * addr_unit);", ".map(|s: usize| -> (r: usize) requires s * addr_unit <= usize::MAX ensures r == s * addr_unit { s * addr_unit });", rule="R4", why="closure header; body wrapped in braces"),
     ],
+    closures={1: ("|s: usize| -> (r: usize) requires s * addr_unit <= usize::MAX ensures r == s * addr_unit", "")},
     loops={1: Loop(invariant=[
         C("banks_wf", "banks_wf(defs)"),
         C("clean", "report.msgs() == old(report).msgs() && report.errors() == old(report).errors() && report.parents() == old(report).parents()"),
